@@ -9,6 +9,7 @@ package forwarder
 import (
 	"net"
 	"slices"
+	"strings"
 
 	"github.com/prometheus/client_golang/prometheus"
 	"github.com/prometheus/client_golang/prometheus/promauto"
@@ -90,7 +91,9 @@ func addr2Host(addr string) string {
 		return "localhost"
 	}
 
-	return host
+	// The host comes from the client's request, and Prometheus panics on
+	// label values that are not valid UTF-8.
+	return strings.ToValidUTF8(host, "\uFFFD")
 }
 
 type listenerMetrics struct {
